@@ -104,6 +104,55 @@ theorem C06_schedule_battery (ops : Ops α B) (law : Law ops) (hrs : Int → α)
       · exact (elaw.load_energy _ _ _ _ _ _ _ _ hr).2.2
     · exact Or.inl hw
 
+/-- **schedule (collective): every change of vehicles and connector loads is one booked battery
+call.**  For any battery obeying `Sched.Law` and the energy identity `Sched.EnergyLaw` (C01): the whole
+`Schedule.step` in the `collective` sub-strategy — inside the core standing time (evaluation at its first
+step, excess branch, on-schedule branch with its retry loop, V2G pass) or outside
+(`charge_vehicles`, `charge_vehicles_after_core_standing_time`) — takes the world (after the station
+reset) to a world `wv` through a finite `Sched.Chain` of `Sched.Booked1` steps and then runs the battery
+pass (`C06_schedule_battery` describes each of its passes).  A `Booked1` step is exactly ONE real battery
+call on a connected vehicle `v` (`v.cs = some csId`): its battery is replaced by the call's result, the
+load of one connector changes by exactly the call's signed average power `x` under the key `csId`
+(`x ≥ 0` charge with `(soc' − soc)·capacity = x·hours·efficiency`, `x ≤ 0` V2G discharge with
+`(soc − soc')·capacity = (−x)·hours/efficiency`), stationary batteries and all other vehicles and
+connectors are untouched.  So a vehicle that several passes serve in one step (known finding
+`C05:above_charging_curve:schedule:several_battery_calls_in_one_step`) still has its stored energy and
+the booked power in balance call by call, and the look-ahead — `evaluate_core_standing_time_ahead`,
+`sim_balanced_charging`, the discharge-limit and power searches of the V2G pass on the copied vehicle —
+leaves no trace in the world: none of them is a chain step. -/
+theorem C06_schedule_collective_step (ops : Ops α B) (law : Law ops) (hrs : Int → α)
+    (elaw : EnergyLaw ops hrs) (env : Env α) (hc : env.collective = true)
+    (w w' : SWorld α B) (st st' : CState α) (cmds : List (String × α))
+    (h : step ops env w st = .ok (w', st', cmds)) :
+    ∃ wv, Chain ops hrs env (resetStations w) wv ∧ utilizeBatteries ops env wv = .ok w' :=
+  step_collective_chain ops law hrs elaw env hc w w' st st' cmds h
+
+/-- **a chain of booked calls never touches a stationary battery** (what the vehicle passes of the
+collective sub-strategy leave for the battery pass) -/
+theorem C06_schedule_collective_chain_batteries (ops : Ops α B) (hrs : Int → α) (env : Env α)
+    (w w' : SWorld α B) (h : Chain ops hrs env w w') : w'.batteries = w.batteries := by
+  induction h with
+  | refl => rfl
+  | tail _ hb ih =>
+    obtain ⟨_, _, _, _, _, _, _, _, _, _, _, hbat, _⟩ := hb
+    rw [hbat, ih]
+
+/-- Non-vacuity of the collective statement: the toy battery obeys both laws, and the V2G feed-in
+example step (a V2G discharge is booked) succeeds, so the chain it yields is not the empty one: the
+connector's load moved from −8 kW. -/
+example :
+    Law toyOps ∧ EnergyLaw toyOps toyHours ∧
+    (∀ r, step toyOps (exEnvC 5) exWorldFeed exStateFeed = .ok r →
+      ∃ wv, Chain toyOps toyHours (exEnvC 5) (resetStations exWorldFeed) wv ∧
+        utilizeBatteries toyOps (exEnvC 5) wv = .ok r.1) ∧
+    (match step toyOps (exEnvC 5) exWorldFeed exStateFeed with
+     | .ok r => r.1.gcs.all (fun g => decide (g.currentLoad < -8))
+     | .error _ => false) = true :=
+  ⟨toyLaw, toyEnergyLaw,
+   fun r h => C06_schedule_collective_step toyOps toyLaw toyHours toyEnergyLaw (exEnvC 5) rfl exWorldFeed r.1
+     exStateFeed r.2.1 r.2.2 h,
+   by decide +kernel⟩
+
 /-- Non-vacuity of the step-level statement: the example world meets the hypotheses, the step
 succeeds, and the connected vehicle's SoC change times its 40 kWh equals the command × 0.25 h × 1. -/
 example :
